@@ -863,7 +863,7 @@ pub fn run_c17(report: &mut Report, budget: Duration) {
     // given prefix, so they mean the same thing at every position and on the fresh reference connection.
     // (Catches state that builds up over several evaluations - budgets, caches, counters - and state
     // that is only reset on the success path.)
-    let failing: Vec<String> = ["(FLTR-F AND AS-GONE)", "(AS-GONE AND FLTR-F)", "(RS-X AND AS-GONE)", "((AS-A AND AS-B) AND AS-GONE)", "(AS65001 AND AS-GONE)", "(FLTR-F AND (FLTR-F AND AS-GONE))", "FLTR-LOOP", "(AS-A OR FLTR-LOOP)"].iter().map(|s| (*s).to_string()).collect();
+    let failing: Vec<String> = ["(FLTR-F AND AS-GONE)", "(AS-GONE AND FLTR-F)", "(RS-X AND AS-GONE)", "((AS-A AND AS-B) AND AS-GONE)", "(AS65001 AND AS-GONE)", "(FLTR-F AND (FLTR-F AND AS-GONE))", "FLTR-LOOP", "(AS-A OR FLTR-LOOP)", "(AS65001^33-40 OR AS-GONE)", "(PeerAS OR AS-A)"].iter().map(|s| (*s).to_string()).collect();
     let xs: Vec<String> = alpha.iter().cloned().chain(failing).collect();
     let ks: Vec<usize> = if thorough { vec![1, 2, 3, 5, 9, 17, 33] } else { vec![2, 9] };
     let rep_irrd = Irrd::start(model.db.clone());
